@@ -345,7 +345,9 @@ def queries(tier):
         # "a valid SETUP is ACKed" for a SETUP in the third slot does not finish (>900 s); it is decided for SETUPs in
         # the first and second slot here and after every single prior transaction by the 2-slot cubes below
         asserts = [a for a in ALL if not (a == "setup_ack" and name[-1] in "Ss")]
-        qs.append(Query(f"bmc_3slots_{name}", f3, 32 * 3 + 2, layer=layer, asserts=asserts, covers=[], timeout=900, split=False,
+        # the cubes with a status OUT after an IN are the expensive ones: give every assertion its own process there
+        heavy = ("IP" in name) or ("iP" in name)
+        qs.append(Query(f"bmc_3slots_{name}", f3, 32 * 3 + 2, layer=layer, asserts=asserts, covers=[], timeout=900, split=heavy,
                         desc=f"3 transactions {name}: direction rules and fresh-transfer answers; address, endpoint, data symbolic"))
     f2 = lambda: CtrlHarness(2, compose=False)
     zl2 = {f"s{i}_olen": 0 for i in range(2)}
